@@ -1089,6 +1089,17 @@ func Run(cfg hx.Config) error {
 			h.opUnbind("punbindfs", s)
 			h.opUnbind("punbinduri", s)
 		}
+		if i%6 == 3 || i%12 == 5 {
+			// the string as the advisory's repository name: one that does not
+			// unbind reports nothing
+			rec := g.cleanWFN()
+			if ok && g.r.Chance(1, 2) {
+				rec = w
+			}
+			if v := h.opVuln(s, rec); !ok && v != "false" {
+				r.Fail("", fmt.Sprintf("advisory CPE %q does not unbind but Vulnerable says %s for the repository %q", s, v, rec.BindFS()))
+			}
+		}
 		if ok && w.Valid() == nil {
 			// what was accepted binds and unbinds to itself
 			if got, err := cpe.Unbind(w.BindFS()); err != nil || got != norm(w) {
